@@ -2934,7 +2934,10 @@ class CppEmitter(Visitor):
         active = self._active_ctx_for(e)
         if not isinstance(active, EFloatContext):
             return None
-        rounded = active.round(e.arg.as_rational())
+        # `as_real`, not `as_rational`: a `Fraction` has no signed zero, so
+        # `fp.round(-0.0)` would fold to `0` and `x / fp.round(-0.0)` would
+        # turn from -inf into +inf
+        rounded = active.round(e.arg.as_real())
         if rounded.isinf or rounded.isnan:
             # An overflowing literal is a value the target format does have,
             # but ``HUGE_VAL``/``NAN`` are a separate spelling; leave it.
